@@ -4,15 +4,21 @@ from __future__ import annotations
 
 import common
 import progspace
+import scopecorr
 import scopes
 
-LEAN_TARGETS = ["CM.Props.Lift"]
+LEAN_TARGETS = ["CM.Props.Lift", "CM.Props.C02Scope"]
 THEOREMS = [
     "CM.Pipeline.run_preserves",
     "CM.Pipeline.C02_run_scope_safe",
     "CM.Pipeline.holds_applyFiles",
     "CM.Pipeline.holds_processDeps",
     "CM.Pipeline.processFile_write_preserves",
+    "CM.Scope.clean_scope_safe",
+    "CM.Scope.refs_le_libcst",
+    "CM.Scope.C02_clean_scope_safe",
+    "CM.Scope.C02_clean_scope_safe_python",
+    "CM.Scope.C02_clean_old_unbinds_closure_read",
 ]
 RULE = (
     "program space of C01 (trigger snippets x context / nesting / layout variants, two-site files, decoy code) for every codemod with "
@@ -31,11 +37,43 @@ LEVEL_TEXT = (
     "- no file has a new unresolved name. The pipeline model is tied to the code by the framework correspondence; the per-transformer "
     "contract is validated on the program space with a scope-aware symtable analysis as oracle."
 )
+LEVEL_TEXT += (
+    " Mechanism (CM.Scope): function bodies as assignments, reads and nested scopes; the clean-up pass RemoveUnusedVariables with its "
+    "liveness test as the code has it now (reads at the same level, or a non-empty `references` set as libcst attributes it) is proved to "
+    "leave no name unresolved that was resolved (C02_clean_scope_safe, via refs_le_libcst: Python's references are among what libcst "
+    "attributes); the test as it was before a fix (same-level reads only) is a proved counter-example. Tied to the code by running the "
+    "real transformer and libcst's ScopeProvider on generated bodies."
+)
 LEVEL_NOTE = (
     "Partial: import insertion/removal by libcst's visitors and each transformer's use of them are covered by the contract search only. "
     "Trusted: Lean kernel (propext, Quot.sound, Classical.choice); the symtable-based analyser."
 )
 TECHNIQUE = "Lean 4 proof (lifting theorem) + framework correspondence + program-space contract search with scope analysis"
+
+
+def corr(ctx):
+    """CM.Scope against libcst's scope analysis and the real RemoveUnusedVariables transformer"""
+    rng = ctx.rng
+    bodies = [scopecorr.gen_body(rng) for _ in range(ctx.pick(250, 2500))]
+    codes = [scopecorr.program(b) for b in bodies]
+    inputs = [scopecorr.parse_back(c) for c in codes]      # the rendering decides def / lambda: the model sees what was rendered
+    for b, code, a in zip(inputs, codes, common.lean_ask([{"op": "scope_clean", "body": b} for b in inputs])):
+        if "err" in a:
+            ctx.broke("scope_clean driver op", str(a)); break
+        own, refs = scopecorr.libcst_counts(code)
+        after = scopecorr.real_clean(code)
+        m_own, m_nl = dict(map(tuple, a["own_reads"])), dict(map(tuple, a["nested_libcst"]))
+        impl_ans = {"own_reads": own, "alive": {n: own[n] > 0 or refs[n] > 0 for n in own}, "cleaned": scopecorr.parse_back(after)}
+        model_ans = {"own_reads": m_own, "alive": {n: m_own[n] + m_nl[n] > 0 for n in m_own}, "cleaned": a["cleaned"]}
+        removed = impl_ans["cleaned"] != b
+        ctx.corr_case("scope_clean", {"program": code}, impl_ans, model_ans, removed,
+                      "scope:" + ("removes" if removed else "keeps") + (":closure-read" if a["cleaned"] != a["cleaned_old"] else ""))
+        # the property on the real output: no name of the function became unresolved
+        ctx.search_case("clean-up-pass", {"program": code}, removed)
+        u0, u1 = scopes.unresolved(code), scopes.unresolved(after)
+        if u0 is not None and u1 is not None and not set(u1) <= set(u0):
+            ctx.fail({"kind": "new-unresolved-name", "codemod": "RemoveUnusedVariables"},
+                     f"RemoveUnusedVariables: the cleaned function reads {sorted(set(u1) - set(u0))} which nothing binds", {"before": code, "after": after})
 
 
 def search(ctx):
